@@ -1,4 +1,5 @@
 import Uft.Lemmas.FstackTop
+import Uft.Lemmas.FstackSim
 /- C07 — Analysis-time filters mean the same as record-time filters.
 
 Model: Uft/Model/Fstack.lean (utils/fstack.c: the look-ahead of get_task_ustack, fstack_entry /
@@ -71,6 +72,41 @@ theorem c07_commands_agree (c : RCfg) (hq : Quiet c) (hnl : c.noLibcall = false)
     (hen : c.enabled0 = true) (xs : Calls) (ho : Calls.ordered xs) (cmd1 cmd2 : Cmd) :
     cmdOut c cmd1 (evCalls 0 xs) = cmdOut c cmd2 (evCalls 0 xs) := by
   rw [c07_replay_refines_spec c hq hnl hr hen xs ho cmd1, c07_replay_refines_spec c hq hnl hr hen xs ho cmd2]
+
+/-- … in particular across trace-off periods: a call that is entered, or returns, while tracing
+    is switched off (trace_off trigger, --trace=off) still gives back its -F / -N count and its
+    depth budget in the fstack_check_filter path of report, graph and dump (this is what the
+    seeded change C07-traceoff-exit-skips-restore broke). -/
+theorem c07_state_restored_traceoff (c : RCfg) (xs : Calls) (d : Nat) (s : FS) (hs : s.scSet = true)
+    (hoff : s.enabled = false) :
+    (endA c s (evCalls d xs)).core = s.core :=
+  (restoredA_calls c xs d s hs).1
+
+/-- **The commands agree under every option set** — trace_on / trace_off triggers and
+    --trace=off included (no -r, no --no-libcall): on every call forest replay, with its
+    fstack_skip look-ahead and leaf folding or with --no-merge, shows exactly the records that
+    report, graph, dump and script accept. Proved by simulation of the two loops, not through
+    `spec` (which does not cover trace switches). -/
+theorem c07_commands_agree_traceoff (c : RCfg) (hnl : c.noLibcall = false) (hr : NoRange c) (xs : Calls)
+    (ho : Calls.ordered xs) (cmd1 cmd2 : Cmd) :
+    cmdOut c cmd1 (evCalls 0 xs) = cmdOut c cmd2 (evCalls 0 xs) := by
+  have hla := lookahead_forest c hr xs ho
+  have key : ∀ cmd, cmdOut c cmd (evCalls 0 xs) = runSteps (stepA c) (FS.init c) (lookahead c (evCalls 0 xs)) := by
+    intro cmd
+    cases cmd with
+    | replay =>
+      show runB c ⟨FS.init c, none⟩ (lookahead c (evCalls 0 xs)) = _
+      rw [hla, sim_run c hnl _ 0 (FS.init c) ⟨FS.init c, none⟩ [] (Sim.idle _ _) (WFD_forest _)]
+      rfl
+    | script =>
+      show runSteps (stepC c) _ _ = _
+      rw [stepC_eq_stepA c hnl]
+    | report => rfl
+    | graph => rfl
+    | dump => rfl
+  rw [key cmd1, key cmd2]
+
+example : ({ enabled0 := false, trig := fun f => if f = 5 then { traceOn := true } else if f = 3 then { traceOff := true } else {} } : RCfg).noLibcall = false := rfl
 
 /-- report, graph, dump and script run the same fstack_check_filter / fstack_entry automaton:
     without --no-libcall they agree on *every* record stream and option set, including
